@@ -59,6 +59,15 @@ var Items = []Item{
 	{ID: "slice-full", Setup: "s := make([]uint64, 4)", Core: "t := s[:]\n\tr = uint64(len(t))", NoCtx: true},
 	{ID: "string-index", Setup: `s := "hello"`, Core: "r = uint64(s[1])"},
 	{ID: "string-slice", Setup: `s := "hello"`, Core: "t := s[1:3]\n\tr = uint64(len(t))", NoCtx: true, Known: "c02NamedTypeCrash"},
+	{ID: "string-slice-take", Setup: `s := "hello"`, Core: "t := s[:3]\n\tr = uint64(len(t))", NoCtx: true},
+	{ID: "string-slice-skip", Setup: `s := "hello"`, Core: "t := s[2:]\n\tr = uint64(len(t))", NoCtx: true},
+	{ID: "named-string-slice-take", Decls: "type Ns%N% string", Setup: "var s Ns%N% = \"hello\"", Core: "t := s[:3]\n\tr = uint64(len(t))", NoCtx: true},
+	{ID: "array-pointer-slice-take", Core: "arr := new([4]uint64)\n\tt := arr[:2]\n\tr = uint64(len(t))", NoCtx: true},
+	{ID: "array-pointer-slice-skip", Core: "arr := new([4]uint64)\n\tt := arr[1:]\n\tr = uint64(len(t))", NoCtx: true},
+	{ID: "array-pointer-slice-sub", Core: "arr := new([4]uint64)\n\tt := arr[1:3]\n\tr = uint64(len(t))", NoCtx: true},
+	{ID: "array-slice-take", Core: "var arr [4]uint64\n\tt := arr[:2]\n\tr = uint64(len(t))", NoCtx: true},
+	{ID: "string-index-var", Setup: "s := \"hello\"\n\tvar i uint64 = 1", Core: "r = uint64(s[i])"},
+	{ID: "array-pointer-index", Core: "arr := new([4]uint64)\n\tarr[1] = 3\n\tr = arr[1]", NoCtx: true},
 	{ID: "array-local", Core: "var arr [3]uint64\n\tarr[1] = 5\n\tr = arr[1] + uint64(len(arr))", NoCtx: true},
 	{ID: "array-literal", Core: "arr := [2]uint64{3, 4}\n\tr = arr[0] + arr[1]", NoCtx: true},
 	{ID: "slice-literal-multi", Core: "s := []uint64{1, 2, 3}\n\tr = s[2] + uint64(len(s))", NoCtx: true},
